@@ -187,6 +187,33 @@ func ruleC04(p *Prog, r *Res) {
 			pn := namedOf(sig.Params().At(0).Type())
 			return pn != nil && pn.Obj().Name() == "stream"
 		})
+		// helpers of the package that read a field of the progressGroup they are given (a method extracted from the
+		// closure): a call of one is a read of that field at the call site
+		helperReads := map[string]map[*types.Func]bool{}
+		for _, h := range p.FnList {
+			if h.Short != "index" || h.Lit != nil || h.Decl == nil || h.Body() == nil {
+				continue
+			}
+			hinfo := h.Pkg.TypesInfo
+			ho, _ := hinfo.Defs[h.Decl.Name].(*types.Func)
+			if ho == nil {
+				continue
+			}
+			ast.Inspect(h.Body(), func(y ast.Node) bool {
+				se, ok := y.(*ast.SelectorExpr)
+				if !ok {
+					return true
+				}
+				if n := namedOf(hinfo.TypeOf(se.X)); n == nil || pg == nil || n.Obj() != pg.Obj() {
+					return true
+				}
+				if helperReads[se.Sel.Name] == nil {
+					helperReads[se.Sel.Name] = map[*types.Func]bool{}
+				}
+				helperReads[se.Sel.Name][ho] = true
+				return true
+			})
+		}
 		nb := 0
 		for _, fld := range []string{"variantResults", "successes", "fails", "variants"} {
 			isReset := func(n ast.Node) bool {
@@ -231,6 +258,16 @@ func ruleC04(p *Prog, r *Res) {
 						}
 						return true
 					})
+					if !isRead && len(helperReads[fld]) != 0 {
+						inspectShallow(n, func(y ast.Node) bool {
+							if c, ok := y.(*ast.CallExpr); ok {
+								if fn := p.Callee(f.Pkg, c); fn != nil && helperReads[fld][fn.Origin()] {
+									isRead = true
+								}
+							}
+							return !isRead
+						})
+					}
 					if isRead {
 						reads = append(reads, Pt{b, i})
 					}
